@@ -219,10 +219,22 @@ Proof.
   - intros _ Hb. rewrite (Hb b eq_refl). reflexivity.
 Qed.
 
+Lemma raw_key_judge_true sk ko b : raw_key_judge sk ko b = true -> exists kv, ko tt = Some kv /\ encode kv = b.
+Proof.
+  unfold raw_key_judge. destruct sk as [[|? ?]|]; try discriminate. destruct (ko tt) as [kv|]; [|discriminate].
+  intros H. exists kv. split; [reflexivity|]. apply bytes_eqb_eq. exact H.
+Qed.
+
+(* explicit unfolding (by computation on raw_key_ok only): the proofs below never let the unifier look into skip_go *)
+Lemma raw_key_ok_unfold b kt vt es :
+  raw_key_ok (PBinKey b) (VMap kt vt es) = raw_key_judge (skip_go kt b) (fun _ => key_of_step kt (PBinKey b)) b.
+Proof. reflexivity. Qed.
+
 Lemma raw_key_ok_map s kt vt es kv : raw_key_ok s (VMap kt vt es) = true -> key_of_step kt s = Some kv ->
   forall b, s = PBinKey b -> encode kv = b.
 Proof.
-  intros H Hk b ->. cbn [raw_key_ok] in H. rewrite Hk in H. apply bytes_eqb_eq. exact H.
+  intros H Hk b ->. rewrite raw_key_ok_unfold in H. destruct (raw_key_judge_true _ _ _ H) as [kv' [Hk' E]]. cbv beta in Hk'.
+  rewrite Hk in Hk'. inversion Hk'; subst kv'. exact E.
 Qed.
 
 (* ================= setNotFound + replace on an absent LAST step ================= *)
@@ -335,8 +347,8 @@ Proof.
   - destruct (is_int_type kt) eqn:Ei; [|discriminate L]. unfold is_int_type in Ei.
     destruct (kt =? T_BYTE); [eexists; reflexivity|]. destruct (kt =? T_I16); [eexists; reflexivity|].
     destruct (kt =? T_I32); [eexists; reflexivity|]. destruct (kt =? T_I64); [eexists; reflexivity|]. discriminate Ei.
-  - cbn [raw_key_ok key_of_step] in Hraw.
-    destruct (decode (S (length b)) kt b) as [[kv [|? ?]]|]; try discriminate Hraw. eexists; reflexivity.
+  - rewrite raw_key_ok_unfold in Hraw. destruct (raw_key_judge_true _ _ _ Hraw) as [kv [Hk _]]. cbv beta in Hk. cbn [key_of_step] in Hk.
+    destruct (decode (S (length b)) kt b) as [[kv' [|? ?]]|]; try discriminate Hk. eexists; reflexivity.
 Qed.
 
 (* ================= SET: the walk and the splice against ast_set, by induction on the path ================= *)
@@ -665,18 +677,24 @@ Qed.
 
 Lemma to_raw_none kt vt es s : key_of_step kt s = None -> unset_last_ok s (VMap kt vt es) = true -> to_raw s kt = None.
 Proof.
-  destruct s as [id|i|ks|n|b]; cbn [unset_last_ok key_of_step to_raw raw_key_ok]; intros Hk Hu; try discriminate Hu; try reflexivity.
+  (* no [discriminate] on a hypothesis that still mentions skip_go on variables: it would unfold 1023 levels of fuel *)
+  destruct s as [id|i|ks|n|b]; cbn [unset_last_ok key_of_step to_raw]; intros Hk Hu.
+  - discriminate Hu.
+  - reflexivity.
   - rewrite Hu in Hk. discriminate Hk.
   - destruct (kt =? T_BYTE); [discriminate Hk|]. destruct (kt =? T_I16); [discriminate Hk|].
     destruct (kt =? T_I32); [discriminate Hk|]. destruct (kt =? T_I64); [discriminate Hk|]. reflexivity.
-  - rewrite Hk in Hu. discriminate Hu.
+  - rewrite raw_key_ok_unfold in Hu. destruct (raw_key_judge_true _ _ _ Hu) as [kv [Hk' _]]. cbv beta in Hk'. cbn [key_of_step] in Hk'. rewrite Hk in Hk'. discriminate Hk'.
 Qed.
+
+Lemma unset_last_ok_bin b kt vt es : unset_last_ok (PBinKey b) (VMap kt vt es) = raw_key_ok (PBinKey b) (VMap kt vt es).
+Proof. reflexivity. Qed.
 
 Lemma unset_raw_key kt vt es s kv : unset_last_ok s (VMap kt vt es) = true -> key_of_step kt s = Some kv ->
   to_raw s kt = Some (encode kv).
 Proof.
-  intros Hu Hk. apply to_raw_key; [exact Hk|]. intros b ->. cbn [unset_last_ok] in Hu.
-  eapply raw_key_ok_map; [exact Hu|exact Hk|reflexivity].
+  intros Hu Hk. apply to_raw_key; [exact Hk|]. intros b ->. rewrite unset_last_ok_bin in Hu.
+  exact (raw_key_ok_map (PBinKey b) kt vt es kv Hu Hk b eq_refl).
 Qed.
 
 (* deleteChild on the encoding of the parent against the last step of ast_unset *)
